@@ -161,15 +161,15 @@ def tallyDateText : DateText :=
       | 'n' :: xs => if xs.all (· == 'x') then some (2458850 - (xs.length : Int)) else none
       | _ => none }
 
-theorem tallyDateText_ok : tallyDateText.OK := by
+theorem tallyDateText_ok : tallyDateText.OK (fun _ => True) := by
   refine ⟨?_, ?_, ?_⟩
-  · intro d
+  · intro d _
     by_cases h : 2458850 ≤ d
     · simp [tallyDateText, h, List.all_replicate]; omega
     · simp [tallyDateText, h, List.all_replicate]; omega
-  · intro d
+  · intro d _
     by_cases h : 2458850 ≤ d <;> simp [tallyDateText, h, List.mem_replicate]
-  · intro d
+  · intro d _
     by_cases h : 2458850 ≤ d <;> simp [tallyDateText, h, List.mem_replicate]
 
 /-- The year 2020 as the run of Jan 21 downloads and fills it (20 rows), with rate texts. -/
